@@ -275,6 +275,7 @@ func (h *hdHist) submit(a actSpec, isProbe bool, fault bool) error {
 		}
 	}
 	before, _ := t.GetJSON()
+	stAt := statusShort(t.State.Status) // the status the call meets (t is the engine's live table: read it now, not after the call)
 	nCalls := len(h.be.Calls())
 	h.rig.mu.Lock()
 	nEv := len(h.rig.actions)
@@ -319,7 +320,7 @@ func (h *hdHist) submit(a actSpec, isProbe bool, fault bool) error {
 		ev = lastStr(&x)
 	}
 	h.rig.mu.Unlock()
-	h.line("hd act st=%s id=%d kind=%s arg=%d legal=%s probe=%s bk=%s nr=%d same=%s ev=%s | %s", statusShort(t.State.Status), a.id, a.kind, a.arg, b01(legal), b01(isProbe), bk, nr, same, ev, tbErrName(err))
+	h.line("hd act st=%s id=%d kind=%s arg=%d legal=%s probe=%s bk=%s nr=%d same=%s ev=%s | %s", stAt, a.id, a.kind, a.arg, b01(legal), b01(isProbe), bk, nr, same, ev, tbErrName(err))
 	h.st.Actions++
 	if err == nil {
 		h.st.Accepted++
